@@ -20,6 +20,11 @@ blanks, numbers decimal, an `<element>` is the shared 16-number encoding of `Pro
 | `it ox oy w h`         | `for_each_in_region(cvs, {{ox,oy},{w,h}}, f)`                  | `x,y=<element>` per call of `f`, joined by `/`; `none` when `f` is never called |
 | `cit ox oy w h`        | the same on `canvas const &` (const proxies, `element const &`) | as `it`                 |
 | `dump` / `cdump`       | `size()` and every element of `begin()..end()` (non-const / const overloads) | `w,h:` then the elements joined by `,` |
+| `pi x y <element>` / `pr x y <element>` | the same cell assigned through `*(begin()+y*w+x)` / inside a range-for | none (`?range` if outside) |
+| `fl ox oy w h <element>` | `for_each_in_region(cvs, region, [&](element &c, …){ c = e; })` – a fill THROUGH the callback's reference | none (`?range`) |
+| `cp` / `cc`            | a second canvas object becomes a copy (copy-assignment / copy-construction + move) | none |
+| `ba`                   | the canvas is assigned from that copy                          | none |
+| `bdump`                | dump of the copy: later edits or resizes of the original must not show in it | as `dump` |
 
 The answer is the segments joined by ` ; ` (`-` when there is none).  `<element>` is printed with
 `show_element` / `showElement` (16 numbers separated by blanks, only the meaningful glyph bytes).
@@ -45,6 +50,8 @@ inductive COp
   | rz (w h : Int)
   | it (ox oy w h : Int)
   | dump
+  | fl (ox oy w h : Int) (e : Element)
+  | cp | ba | bdump
   | bad
 deriving Inhabited
 
@@ -52,7 +59,11 @@ def rdCOp : Rd (Option COp) := do
   let w ← Rd.word
   match w with
   | "" => return none
-  | "px" => do let x ← Rd.int; let y ← Rd.int; let e ← rdElement; return some (.px x y e)
+  | "px" | "pi" | "pr" => do let x ← Rd.int; let y ← Rd.int; let e ← rdElement; return some (.px x y e)
+  | "fl" => do let ox ← Rd.int; let oy ← Rd.int; let w ← Rd.int; let h ← Rd.int; let e ← rdElement; return some (.fl ox oy w h e)
+  | "cp" | "cc" => return some .cp
+  | "ba" => return some .ba
+  | "bdump" => return some .bdump
   | "gt" | "cgt" => do let x ← Rd.int; let y ← Rd.int; return some (.gt x y)
   | "rz" => do let w ← Rd.int; let h ← Rd.int; return some (.rz w h)
   | "it" | "cit" => do let ox ← Rd.int; let oy ← Rd.int; let w ← Rd.int; let h ← Rd.int; return some (.it ox oy w h)
@@ -70,6 +81,7 @@ def parse (rest : String) : Int × Int × List COp :=
 def opName : COp → String
   | .px x y _ => s!"px {x} {y}" | .gt x y => s!"gt {x} {y}" | .rz w h => s!"rz {w} {h}"
   | .it ox oy w h => s!"it {ox} {oy} {w} {h}" | .dump => "dump" | .bad => "?"
+  | .fl ox oy w h _ => s!"fl {ox} {oy} {w} {h}" | .cp => "cp" | .ba => "ba" | .bdump => "bdump"
 
 def sizeOk (w h : Int) : Bool := 0 ≤ w && 0 ≤ h && w ≤ 65536 && h ≤ 65536 && w * h ≤ 1048576
 def inside (s : Extent) (x y : Int) : Bool := 0 ≤ x && 0 ≤ y && x < s.width && y < s.height
@@ -82,32 +94,39 @@ def joinOr (empty sep : String) (xs : List String) : String := if xs.isEmpty the
 
 /-! ### model side -/
 
-/-- one op on the model canvas: new canvas and the answer segment (if any) -/
-def stepModel (c : Tpp.Canvas) : COp → Tpp.Canvas × Option String
-  | .px x y e => if inside c.size x y then (c.set x y e, none) else (c, some "?range")
-  | .gt x y => if inside c.size x y then (c, some (showElement (c.get x y))) else (c, some "?range")
-  | .rz w h => if sizeOk w h then let c' := c.resize ⟨w, h⟩; (c', some (showSize c'.size)) else (c, some "?size")
+/-- one op on the model: the canvas, the second object holding a copy, and the answer segment (if any) -/
+def stepModel (c b : Tpp.Canvas) : COp → Tpp.Canvas × Tpp.Canvas × Option String
+  | .px x y e => if inside c.size x y then (c.set x y e, b, none) else (c, b, some "?range")
+  | .gt x y => if inside c.size x y then (c, b, some (showElement (c.get x y))) else (c, b, some "?range")
+  | .rz w h => if sizeOk w h then let c' := c.resize ⟨w, h⟩; (c', b, some (showSize c'.size)) else (c, b, some "?size")
   | .it ox oy w h =>
     if regionInside c.size ox oy w h then
-      (c, some (joinOr "none" "/" ((c.visits ⟨⟨ox, oy⟩, ⟨w, h⟩⟩).map fun v => showVisit v.2.1 v.2.2 v.1)))
-    else (c, some "?range")
-  | .dump => (c, some (showSize c.size ++ ":" ++ ",".intercalate (c.grid.map showElement)))
-  | .bad => (c, some "?op")
+      (c, b, some (joinOr "none" "/" ((c.visits ⟨⟨ox, oy⟩, ⟨w, h⟩⟩).map fun v => showVisit v.2.1 v.2.2 v.1)))
+    else (c, b, some "?range")
+  | .dump => (c, b, some (showSize c.size ++ ":" ++ ",".intercalate (c.grid.map showElement)))
+  | .fl ox oy w h e =>
+    if regionInside c.size ox oy w h then
+      ((regionCoords ⟨⟨ox, oy⟩, ⟨w, h⟩⟩).foldl (fun acc p => acc.set p.1 p.2 e) c, b, none)
+    else (c, b, some "?range")
+  | .cp => (c, c, none)
+  | .ba => (b, b, none)
+  | .bdump => (c, b, some (showSize b.size ++ ":" ++ ",".intercalate (b.grid.map showElement)))
+  | .bad => (c, b, some "?op")
 
-def runOps : Tpp.Canvas → List COp → List String
-  | _, [] => []
-  | c, op :: ops =>
-    let (c', seg) := stepModel c op
+def runOps : Tpp.Canvas → Tpp.Canvas → List COp → List String
+  | _, _, [] => []
+  | c, b, op :: ops =>
+    let (c', b', seg) := stepModel c b op
     match seg with
-    | some s => s :: runOps c' ops
-    | none => runOps c' ops
+    | some s => s :: runOps c' b' ops
+    | none => runOps c' b' ops
 
 /-- model answer for a case line of this slice; `none` when the kind is not ours -/
 def run (kind : Char) (rest : String) : Option String :=
   if kind ≠ 'C' then none else
   let (w, h, ops) := parse rest
   if !sizeOk w h then some "?size" else
-  some (joinOr "-" " ; " (runOps (Tpp.Canvas.new ⟨w, h⟩) ops))
+  some (joinOr "-" " ; " (runOps (Tpp.Canvas.new ⟨w, h⟩) (Tpp.Canvas.new ⟨0, 0⟩) ops))
 
 /-! ### oracle side: expected behaviour from the property statement -/
 
@@ -115,6 +134,9 @@ def run (kind : Char) (rest : String) : Option String :=
 structure Expect where
   size : Extent
   cells : List ((Int × Int) × Element)
+  /-- the copy held by the second object: size and bindings at the time of the copy -/
+  bsize : Extent := ⟨0, 0⟩
+  bcells : List ((Int × Int) × Element) := []
 
 def Expect.lookup (s : Expect) (x y : Int) : Element :=
   match s.cells.find? (fun b => b.1.1 == x && b.1.2 == y) with
@@ -130,7 +152,7 @@ def stepExpect (s : Expect) : COp → Expect × Option String
     if sizeOk w h then
       -- cells inside both the old and the new extent keep their element, every other cell is default
       let n : Extent := ⟨w, h⟩
-      ({ size := n, cells := s.cells.filter fun b => inside s.size b.1.1 b.1.2 && inside n b.1.1 b.1.2 },
+      ({ s with size := n, cells := s.cells.filter fun b => inside s.size b.1.1 b.1.2 && inside n b.1.1 b.1.2 },
        some (showSize n))
     else (s, some "?size")
   | .it ox oy w h =>
@@ -147,6 +169,20 @@ def stepExpect (s : Expect) : COp → Expect × Option String
     let n := w * s.size.height.toNat
     let es := (List.range n).map fun k => showElement (s.lookup (Int.ofNat (k % w)) (Int.ofNat (k / w)))
     (s, some (showSize s.size ++ ":" ++ ",".intercalate es))
+  | .fl ox oy w h e =>
+    if regionInside s.size ox oy w h then
+      let n := w.toNat * h.toNat
+      let binds := (List.range n).map fun k => ((ox + Int.ofNat (k % w.toNat), oy + Int.ofNat (k / w.toNat)), e)
+      ({ s with cells := binds ++ s.cells }, none)
+    else (s, some "?range")
+  | .cp => ({ s with bsize := s.size, bcells := s.cells }, none)
+  | .ba => ({ s with size := s.bsize, cells := s.bcells }, none)
+  | .bdump =>
+    let t : Expect := { size := s.bsize, cells := s.bcells }
+    let w := t.size.width.toNat
+    let n := w * t.size.height.toNat
+    let es := (List.range n).map fun k => showElement (t.lookup (Int.ofNat (k % w)) (Int.ofNat (k / w)))
+    (s, some (showSize t.size ++ ":" ++ ",".intercalate es))
   | .bad => (s, some "?op")
 
 /-- first differing item of two segments (items separated by `/` in visit lists, `,` in dumps) -/
